@@ -46,10 +46,6 @@ Definition strip_blackboxes (C : Circuit) (ign : list string) : res Circuit :=
   if negb (bool_decide (NoDup news)) then Raise ValueError else
   Ok {| c_name := c_name C; c_g := rename_g (pin_rho kept) g2; c_bbs := ∅ |}.
 
-(* Api functions return (state, outcome); the value-level view used in statements *)
-Definition as_res (r : Circuit * outcome) : res Circuit :=
-  match r with (C, Done) => Ok C | (_, Fail e) => Raise e end.
-
 (* ---- specification vocabulary ---- *)
 (* a connection map entry attaches child io `io` to the parent nets `nets` *)
 Definition conn_ok (SC : Circuit) (name : string) (v : val) (kv : string * list string) : Prop :=
